@@ -47,6 +47,22 @@ def addCookie (h : Hdr) (c : Cookie) : Hdr :=
   let cur := hdrFirst h sCookie
   hdrSet h sCookie [if cur.isEmpty then cookiePair c else cur ++ [59, 32] ++ cookiePair c]
 
+/-- join with `"; "`. -/
+def joinCookieLines : List Bytes → Bytes
+  | [] => []
+  | [l] => l
+  | l :: ls => l ++ [59, 32] ++ joinCookieLines ls
+
+/-- `Client.roundTrip` WITH `fixes/C01-4` applied: before the cookie objects are added, SEVERAL
+field lines under the key `Cookie` are folded into one (`"; "` between the non-empty ones), because
+`http.Request.AddCookie` rewrites the field from its first line only (`Header.Get` + `Header.Set`)
+and would drop the others. One line, or no cookie object: untouched. -/
+def foldCookieLines (h : Hdr) : Hdr :=
+  h.map fun kv =>
+    if kv.key == sCookie && kv.values.length > 1 then
+      ⟨kv.key, [joinCookieLines (kv.values.filter fun l => !l.isEmpty)]⟩
+    else kv
+
 /-- `parseRequestHeader`: a client-level key fills a request key only when the request has no
 value under EXACTLY that key (no case folding). `none` = `c.Headers == nil`. -/
 def mergeHeaders (ch : Option Hdr) (rh : Hdr) : Hdr :=
@@ -109,23 +125,29 @@ def payloadForbid (allowGet : Bool) (m : Bytes) : Bool :=
 /-- sort a header map by key (canonical form of the Go map). -/
 def canonHdr (h : Hdr) : Hdr := isortBy (fun a b => le a.key b.key) h
 
-/-- `Request.do` middlewares + `Client.roundTrip` up to the `*http.Request`. Content-Type sniffing
-of `parseRequestBody` (`http.DetectContentType`, external) is not modelled: the caller of this
-function supplies a Content-Type whenever there is an in-memory body. -/
-def buildRequest (a : Api) : Except Url.Err HttpReq := do
-  let h1 := mergeHeaders a.cHeaders a.rHeaders
-  let cookies := mergeCookies a.cCookies a.rCookies
-  let u ← parseRequestURL a.url
-  let body := if payloadForbid a.allowGetPayload a.method then BodySpec.none else a.body
+/-- `Client.roundTrip` on what the middlewares produced: the merged header map, the cookie list, the
+parsed URL (or its error), the body. -/
+def buildFrom (method : Bytes) (h1 : Hdr) (cookies : List Cookie) (ue : Except Url.Err Url)
+    (body0 : BodySpec) (allowGet : Bool) : Except Url.Err HttpReq := do
+  let u ← ue
+  let body := if payloadForbid allowGet method then BodySpec.none else body0
   let hostHdr := hdrFirst h1 sHost
   let host := if hostHdr.isEmpty then u.host else hostHdr
-  let h2 := cookies.foldl addCookie h1
+  let h2 := if cookies.isEmpty then h1 else cookies.foldl addCookie (foldCookieLines h1)
   let (cl, hasBody, bytes, gb) := match body with
     | .none => (0, false, [], false)
     | .bytes b => (b.length, true, b, true)
     | .reader b => (0, true, b, false)
     | .func b => (0, true, b, true)
-  return { method := a.method, url := u, host := host, header := canonHdr h2,
+  return { method := method, url := u, host := host, header := canonHdr h2,
            contentLength := cl, hasBody := hasBody, body := bytes, getBody := gb }
+
+/-- `Request.do` middlewares + `Client.roundTrip` up to the `*http.Request`. Content-Type sniffing
+of `parseRequestBody` (`http.DetectContentType`, external) is not modelled: the caller of this
+function supplies a Content-Type whenever there is an in-memory body. The request is a function of
+the merged headers, the merged cookies, the URL description, the body and the method ONLY. -/
+def buildRequest (a : Api) : Except Url.Err HttpReq :=
+  buildFrom a.method (mergeHeaders a.cHeaders a.rHeaders) (mergeCookies a.cCookies a.rCookies)
+    (parseRequestURL a.url) a.body a.allowGetPayload
 
 end Req.Merge
